@@ -28,6 +28,7 @@ EXPLANATION = (
     "(is_tex_file, is_pdf, is_writable, _is_csv, _select_template_or_default) never subscript the value's context: they are "
     "total and effect-free on every context a dictionary subclass can be.  Does not decide which values are selected.")
 RULES = {
+    "C10-i": "SELECTION KEYS (siblings): is_pdf / is_tex_file read context.output.filetype and nothing else",
     "C10-a": "identity: a passed value is the loop variable itself, never rebound, never a rebuilt tuple",
     "C10-b": "PURE: no mutation through the value or its aliases and no file-system/subprocess effect on a PASS path",
     "C10-c": "no silent drop: every path through the loop body yields, raises, defers (job pool) or warns",
@@ -631,7 +632,40 @@ def check_total_selection(ctx):
     ctx.instances_floor("C10-h", n, 5, "selection predicates of the output elements")
 
 
+def check_converter_selection_keys(ctx):
+    """PDFToPNG and LaTeXToPDF select their input by `context.output.filetype` alone ("pdf" / "tex"): the sibling predicates
+    is_pdf / is_tex_file read that key and no other.  A predicate that falls back to another key (output.fileext, the file
+    name) selects values the documentation says pass unchanged: they get their context rewritten and a converter launched."""
+    res = ctx.res
+    n = 0
+    for mod, qual, want in (("lena.output.pdf_to_png", "PDFToPNG.run.is_pdf", "pdf"), ("lena.output.latex_to_pdf", "LaTeXToPDF.run.is_tex_file", "tex")):
+        fn = ctx.tree.maybe(mod, qual)
+        if fn is None:
+            ctx.unknown("C10-i", ctx.tree.module(mod).tree, "%s: the selection predicate %s not found" % (mod, qual))
+            continue
+        keys = []
+        other = []
+        for c in A.walk_local(fn):
+            if isinstance(c, ast.Call) and (res.call_canon(c) or "").endswith("get_recursively") and len(c.args) >= 2:
+                k = A.const(c.args[1])
+                keys.append(k if isinstance(k, str) else A.src(c.args[1]))
+            elif isinstance(c, ast.Subscript) and isinstance(A.const(c.slice), str):
+                other.append(A.src(c))
+            elif isinstance(c, ast.Call) and isinstance(c.func, ast.Attribute) and c.func.attr == "get" and c.args and isinstance(A.const(c.args[0]), str):
+                other.append(A.src(c))
+        n += 1
+        ctx.check("C10-i", set(keys) == {"output.filetype"} and not other, fn, "%s decides by %s: the converter selects by output.filetype "
+                  "alone, a value without that key (or with another type) passes unchanged"
+                  % (qual, sorted(set(keys) | set(other))), detail="%s reads only output.filetype" % qual, construct="selection-keys:%s" % qual)
+        consts = [A.const(x.comparators[0]) for x in A.walk_local(fn) if isinstance(x, ast.Compare) and len(x.ops) == 1
+                  and isinstance(x.ops[0], (ast.Eq, ast.NotEq)) and isinstance(A.const(x.comparators[0]), str)]
+        ctx.check("C10-i", set(consts) == {want}, fn, "%s compares the file type with %s, not with %r" % (qual, sorted(set(consts)), want),
+                  detail="%s: filetype == %r" % (qual, want), construct="selection-const:%s" % qual)
+    ctx.instances_floor("C10-i", n, 2, "converter selection predicates")
+
+
 def check(ctx):
+    check_converter_selection_keys(ctx)
     check_total_selection(ctx)
     check_example_bin(ctx)
     check_no_hidden_state(ctx)
@@ -643,6 +677,7 @@ def check(ctx):
 
 
 VARIANTS = [
+    M("is-tex-by-filename", "lena/output/latex_to_pdf.py", "            if filetype == \"tex\":", "            if filetype == \"tex\" or lena.context.get_recursively(context, \"output.fileext\", None) == \"tex\":", ["C10-i"]),
     M("is-csv-by-subscript", "lena/output/render_latex.py", "    return _get_recursively(\n        context, \"output.filetype\", None\n    ) == \"csv\"", "    try:\n        return context[\"output\"][\"filetype\"] == \"csv\"\n    except KeyError:\n        return False", ["C10-h"]),
     M("latex-last-value-decides-wait", "lena/output/latex_to_pdf.py", "        # this data mustn't be reused\n        del val\n",
       "        if val is None:\n            return\n\n        # this data mustn't be reused\n        del val\n", ["C10-d"]),
